@@ -297,7 +297,12 @@ def r4(run):
         if isinstance(last, dict) and last.get("n") == "context_id" and last.get("adt") == C.FRAME and bi in b.live_blocks():
             val = b.rvalue_expr(rv)
             org = ctx_origins(run, b, val)
-            writes.append((bi, lhs["l"], org, sp))
+            root = lhs["l"]
+            if lhs["p"] and lhs["p"][0] == "*":
+                # written through a `&mut Frame` (stamping moved into a helper): the frame the reference points to
+                r2 = q.root_local(b, {"copy": {"l": lhs["l"], "p": []}})
+                root = r2 if r2 is not None else root
+            writes.append((bi, root, org, sp))
     run.floor("writes to <output frame>.context_id in process_frame", len(writes), 1, b.sp)
     for c in q.live_calls(b, C.APPEND):
         l = q.root_local(b, c.args[1])
